@@ -82,6 +82,10 @@ pub fn parse_entry(s: &str) -> Result<Entry, String> {
             if kv.iter().any(|(k2, _)| k2 == k) {
                 return Err(format!("key {k} given twice"));
             }
+            if v.is_empty() {
+                // libdbus: "'=' character not found or has no value following it"
+                return Err(format!("key {k} has no value"));
+            }
             kv.push((k.to_string(), unescape(v)?));
         }
     }
@@ -152,6 +156,7 @@ mod tests {
         let e = parse_entry("unix:path=/tmp/x%20y,guid=00").unwrap();
         assert_eq!(e.get("path").unwrap(), b"/tmp/x y");
         assert!(parse_entry("unix").is_err());
+        assert!(parse_entry("unix:path=").is_err());
         assert_eq!(parse_entry("autolaunch:").unwrap().kv.len(), 0);
     }
 }
